@@ -1,0 +1,75 @@
+// +build verif
+
+// Hooks for the /verif correspondence harness. Compiled only with -tags verif; add-only.
+
+package app
+
+import (
+	"strings"
+
+	"github.com/pkg/errors"
+	"github.com/tendermint/tendermint/store"
+
+	"github.com/Oneledger/protocol/app/node"
+	"github.com/Oneledger/protocol/config"
+	"github.com/Oneledger/protocol/data/chain"
+	"github.com/Oneledger/protocol/storage"
+)
+
+// NewVerifApp builds an application that can be driven through ABCI() without a live
+// Tendermint node: NewApp, then the real Prepare() (which reloads currencies and option copies
+// from the governance store and then stops with an error because the harness provides no
+// node key file, i.e. before a consensus node is created), then the node-independent rest of
+// Prepare(): genesis document, witness role, block store.
+func NewVerifApp(cfg *config.Server, nodeCtx *node.Context, genesisDoc *config.GenesisDoc, blockStore *store.BlockStore) (*App, error) {
+	app, err := NewApp(cfg, nodeCtx)
+	if err != nil {
+		return nil, err
+	}
+	perr := app.Prepare()
+	if perr == nil || app.node != nil {
+		return nil, errors.New("verif: Prepare() created a consensus node; remove node_key.json from the harness directory")
+	}
+	if !strings.Contains(perr.Error(), "failed parse NodeConfig") {
+		return nil, errors.Wrap(perr, "verif: Prepare() failed before reaching the node configuration")
+	}
+	app.genesisDoc = genesisDoc
+	app.Context.witnesses.Init(chain.ETHEREUM, app.Context.node.ValidatorAddress())
+	app.Context.SetBlockStore(blockStore)
+	return app, nil
+}
+
+// VerifChainState exposes the committed tree (read-only use: state dumps).
+func (app *App) VerifChainState() *storage.ChainState { return app.Context.chainstate }
+
+// VerifDeliverState / VerifCheckState expose the two overlays (read-only use).
+func (app *App) VerifDeliverState() *storage.State { return app.Context.deliver }
+func (app *App) VerifCheckState() *storage.State   { return app.Context.check }
+
+// VerifPendingWrites returns the block cache of the deliver state in first-write order.
+func (app *App) VerifPendingWrites() (ks [][]byte, vs [][]byte) {
+	app.Context.deliver.GetGasStore().GetIterable().Iterate(func(k, v []byte) bool {
+		ks = append(ks, append([]byte{}, k...))
+		vs = append(vs, append([]byte{}, v...))
+		return false
+	})
+	return
+}
+
+// VerifCloseDBs closes every database the application opened (so that a copy of the data
+// directory can be reopened); the application must not be used afterwards.
+func (app *App) VerifCloseDBs() {
+	defer func() { recover() }()
+	if app.Context.db != nil {
+		app.Context.db.Close()
+	}
+	if app.Context.accounts != nil {
+		app.Context.accounts.Close()
+	}
+	if app.Context.jobStore != nil {
+		app.Context.jobStore.Close()
+	}
+	if app.Context.lockScriptStore != nil {
+		app.Context.lockScriptStore.Close()
+	}
+}
